@@ -285,6 +285,35 @@ func runC22Third(c *Ctx) {
 	if f == nil {
 		return
 	}
+	// the integer readers leave the acceptance of the payload bytes to the paired converter: no
+	// rejection is decided by looking at the bytes themselves (the writer's sign pad 0x00 is legal)
+	for _, name := range []string{"readUintValue", "readIntValue"} {
+		g := c.fn("common/codec", "rlpReader", name)
+		if g == nil {
+			continue
+		}
+		for _, cs := range c.calls(g, byMethod("readBytes")) {
+			bs := render(cs.Instr.Value()) + "#0"
+			n := 0
+			for _, e := range exitAlts(g) {
+				if !definitelyNonNilErr(e.Results[0], e.Guards) {
+					continue
+				}
+				n++
+				bad := ""
+				for _, gd := range e.Guards {
+					r := render(gd.Cond)
+					if strings.Contains(r, bs+"[") || strings.Contains(r, "len("+bs+")") {
+						bad = gd.String()
+					}
+				}
+				c.check(bad == "", "C22.key-encoding/reader-accepts-writer", "rlpReader."+name+" rejects only what the converter rejects", e.pos(), "no test of the payload bytes", "an integer is rejected on "+bad+": the writer's own byte form (sign pad before a byte ≥ 0x80) is refused, index keys from 128 up cannot be read back")
+			}
+			if n == 0 {
+				c.undecided("C22.key-encoding/reader-accepts-writer", "rlpReader."+name, g.Pos(), "no rejecting exit")
+			}
+		}
+	}
 	type lim struct{ stream, maxsb ssa.Value }
 	lims := map[ssa.Value]*lim{}
 	var order []ssa.Value
